@@ -5,6 +5,9 @@ CFG = P(
         srcs=["Hash.cc", "Strings.cc", "Filesystem.cc", "Process.cc", "Time.cc", "Encoding.cc"],
         ldflags=["-lcrypto"],
         oracle="C10",
+        variants={
+            "preempt": dict(harness=["harness/C10_preempt.cc"], src_cxxflags={"Hash.cc": ["-fsanitize-coverage=trace-pc"]}, tiers=["quick", "thorough"]),
+        },
         rule="a case is one (function, length, fill pattern) triple, one (function, input, split point[s], overload combination set) tuple, one call HISTORY (2-3 calls, or a whole sweep over all "
              "lengths, executed inside the case), one (function, overload, storage, content sequence) tuple, one (seed with its prefix witness, overload, suffix) tuple, one (function, overload, "
              "input, context) tuple, one (digest algorithm, digest VALUE) pair (the value written into the public state words of an object; its renderings and those of the values reached by complementing one word "
@@ -23,10 +26,13 @@ CFG = P(
                      "7E, 7F, 80, 9F, A0, FF), every word at 2^k-1, 2^k, 2^k+1, every nibble value at every nibble position, octet classes (all printable, all white space, all hex digits, all "
                      "control, all high, counting) at every phase, one class per word in every assignment, two octets different at every position pair, printable-or-not per octet (all 2^16 for "
                      "MD5), each as a history on one persistent object (value, then one more word complemented per step down to the complement, value again) plus fresh object / const reference / copy; 8 inputs whose real MD5 and 1 whose real SHA-1 digest is "
-                     "all-printable; content: every octet value 0..255 at the first / middle / last position of inputs of 8 lengths x backgrounds {00, FF}, every function and overload",
+                     "all-printable; content: every octet value 0..255 at the first / middle / last position of inputs of 8 lengths x backgrounds {00, FF}, every function and overload; "
+                     "concurrent_same / concurrent_cross / concurrent_three (variant 'preempt'): 2 concurrent calls of the same function (6 functions x 4 overload pairs x 4 input-shape pairs: 3/5, 55/56, 70/5, 70/130 bytes), "
+                     "of every ordered pair of different functions, and 3 concurrent calls of the same function: EVERY schedule with <= 2 preemptions (MD5/SHA1/SHA256 pointer overload, one-block inputs) or <= 1 preemption "
+                     "(all other configurations) at basic-block granularity and every completion order, each call's words/bin()/hex() compared with the reference of ITS input",
             "thorough": "as quick with lengths 0..4096, chain 0..300 and 1025, chain3 0..40 / read loops 0..300, pairs/cross/storage over all 64 residues (768 / 384 shapes), triples over 36 shapes, "
                         "sweeps 0..1024, misaligned also lengths 258..520, big16m 9 sizes, huge sizes {2^29-1, 2^29, 2^29+8, 2^29+56, 2^32-1, 2^32, 2^32+56}; renderings also with every octet value 0..255 against the lane alphabet (both ways round) at every position, 4 "
-                        "classes per word for SHA256, printable-or-not per octet for SHA1 (all 2^20); content over 29 lengths x 4 backgrounds x EVERY position x every octet value, and every 2-octet string",
+                        "classes per word for SHA256, printable-or-not per octet for SHA1 (all 2^20); content over 29 lengths x 4 backgrounds x EVERY position x every octet value, and every 2-octet string; concurrent_*: as quick with <= 2 preemptions also for the 55/56-byte and multi-block/one-block input pairs, the std::string overloads, the integer hashes, the same input in both jobs, all cross pairs and the three-job configurations",
         },
         explanation="E-ENUM over the real Hash.cc; oracle = OpenSSL EVP digests and zlib crc32 linked into the harness (counted in traces_validated_against_impl), FNV-1a by the published recurrence; "
                     "a Python stage re-derives the references of the lengths/boundaries/big16m sections with hashlib/zlib on independently regenerated inputs. Call histories run inside one case "
@@ -44,10 +50,13 @@ CFG = P(
             "(nullptr, 0) is treated as a representation of the empty byte string, with and without a seed (the repository's own HashTest passes nullptr with size 0 to every function)",
             "sizes near SIZE_MAX are not executed (reading that many bytes is undefined); the largest input is 2^32+56 bytes (thorough), 2^29+56 bytes (quick)",
             "environment classes that do not apply to pure in-memory functions (EINTR, short reads/writes, file vs pipe, partly consumed streams) are not enumerated; ambient errno is poisoned "
-            "before every call; concurrency (two hashes running at the same time) is outside the statement and not explored: threads are used one at a time",
+            "before every call",
+            "concurrency (variant 'preempt', engine/preempt.hh): two or three calls run as fibers of one OS thread; src/Hash.cc alone is compiled with -fsanitize-coverage=trace-pc and every basic-block entry in it "
+            "is a scheduling point, so interleavings are explored at basic-block granularity under sequentially consistent semantics; a read-modify-write inside one basic block, weak-memory effects and "
+            "code outside Hash.cc (the StringWriter / string_printf renderings, libc) are atomic steps; Hash.cc uses no thread_local storage (fibers would share it)",
         ],
-        engine="E-ENUM",
-        technique="exhaustive enumeration of message lengths across all padding cases, of all split points, of all ordered pairs/triples of calls over a boundary shape set (state carried between "
+        engine="E-ENUM + E-PREEMPT",
+        technique="preemption-bounded exhaustive exploration of concurrent calls (every schedule with <= 1-2 preemptions at basic-block granularity of the trace-pc-instrumented Hash.cc, fibers under a controlled scheduler) and exhaustive enumeration of message lengths across all padding cases, of all split points, of all ordered pairs/triples of calls over a boundary shape set (state carried between "
                   "calls), of storage/object prior states, boundary seeds and calling contexts, of structured digest values rendered through real objects and of octet values at input positions, compared with independent implementations (OpenSSL EVP, zlib, Python hashlib)",
         level_text="Every message length 0..300 (0..4096 thorough) with six fill patterns, block-boundary sizes up to 2^24+64 and one 2^29+56-byte input (2^32+56 thorough) are hashed by the real "
                    "MD5/SHA1/SHA256/crc32/fnv1a code through every overload and by OpenSSL/zlib/the published FNV recurrence; bin() and hex() renderings, every split point (and pair of split "
@@ -55,8 +64,8 @@ CFG = P(
                    "thorough), triples, whole sweeps in four orders, reused storage with new content, reused digest objects, misaligned pointers and five calling contexts (threads, catch "
                    "handlers, unwinding) are enumerated so that state carried between calls shows. bin() and hex() are additionally judged on the digest VALUE space (about 190 000 structured "
                    "values in the quick tier: uniform, one-off, per-word, per-nibble, octet-class and printable/non-printable assignments) written into the objects' state words, and every octet "
-                   "value is placed at the first/middle/last position of inputs around the padding boundaries. References are bound a second time to Python hashlib/zlib.",
+                   "value is placed at the first/middle/last position of inputs around the padding boundaries. References are bound a second time to Python hashlib/zlib. Two and three concurrent calls are executed under every schedule with at most one or two preemptions at basic-block granularity (about 10^6 schedules in the quick tier) and each call must still return the digest of its own input.",
         level_note="Trusted: OpenSSL 3 EVP, zlib and Python hashlib as the standard algorithms. Content space is six patterns per length plus single-octet variations of two backgrounds, not all byte strings. The digest value space is covered by structured families, not all 2^128..2^256 values. Histories are bounded to three "
-                   "calls (plus whole-sweep cases) over the boundary shape set.",
+                   "calls (plus whole-sweep cases) over the boundary shape set. Concurrency is explored at basic-block granularity with a preemption bound of 2 (1 for the larger configurations), sequentially consistent, Hash.cc only.",
         deadline={"quick": 600, "thorough": 3600},
     )
